@@ -1,0 +1,53 @@
+//go:build verif
+// +build verif
+
+// Second verification hook for C12 (build tag "verif"): what the real
+// collectArtifacts lists for a directory, and what the real
+// removeNonUploadableFiles then leaves in it.  Add-only; calls the unexported
+// code unchanged.
+
+package cmd
+
+import (
+	"context"
+	"io/ioutil"
+	"os"
+	"path/filepath"
+)
+
+// VerifArtifacts treats dir as the run directory: it calls the real
+// collectArtifacts and returns the Path of every non-directory entry of the
+// tree, then calls the real removeNonUploadableFiles and returns the paths
+// (relative to dir) of every non-directory entry still there.  Must run
+// inside VerifLogScope.
+func VerifArtifacts(dir string) (listed, survived []string) {
+	ctx := context.Background()
+	cfg := newConfig()
+	cfg.narration = ioutil.Discard
+	cfg.avoidTimeProgress = true
+	cfg.dataDir = dir
+	ap := newApp(ctx, cfg)
+	defer ap.close()
+	r := &Result{}
+	ap.collectArtifacts(r)
+	var walk func(as []Artifact)
+	walk = func(as []Artifact) {
+		for _, a := range as {
+			if !a.IsDir {
+				listed = append(listed, a.Path)
+			}
+			walk(a.Children)
+		}
+	}
+	walk(r.Artifacts)
+	ap.removeNonUploadableFiles()
+	_ = filepath.Walk(dir, func(path string, info os.FileInfo, err error) error {
+		if err != nil || info.IsDir() {
+			return nil
+		}
+		rel, _ := filepath.Rel(dir, path)
+		survived = append(survived, rel)
+		return nil
+	})
+	return listed, survived
+}
